@@ -19,8 +19,8 @@ func init() {
 		ID:    "C17",
 		Title: "WellFormed decides exactly the documented rules and String agrees with it",
 		Level: "model_checking",
-		Rule: "full product: PUBLISH over topic {empty,non-empty} x topic alias {0,1,65535} x QoS 0..3 x packet id {0,1,65535} x DUP x RETAIN x all 2^6 presence combinations of the remaining fields; " +
-			"SUBSCRIBE over filter count 0..3 x subscription id {absent,0,1,268435455,268435456,2^31-1,2^32,2^32+5,2^62+1} x per filter (filter {empty,non-empty} x ALL 256 option bytes) for lists of <=2 filters and a 12-value option alphabet for the third; TopicFilter.WellFormed over the same per-filter space; " +
+		Rule: "full product: PUBLISH over topic {empty,non-empty} x topic alias {0,1,65535} x QoS 0..3 x packet id {0,1,65535} x DUP x RETAIN x all 2^6 presence combinations of the remaining fields, and x a subscription identifier added with AddSubscriptionID from {1,127,128,268435455,268435456,2^32-1} (no documented rule mentions it); " +
+			"SUBSCRIBE over filter count 0..3 x subscription id {absent,0,1,268435455,268435456,2^31-1,2^32,2^32+5,2^62+1} x per filter (filter {empty,non-empty} x ALL 256 option bytes) for lists of <=2 filters and a 12-value option alphabet for the third; SUBSCRIBE with 1..5000 filters (1,2,3,7..9,15..17,31..33,63..66,100,127..129,255..257,1000,5000 and counts mined from the tree) all well-formed but the one at the start / middle / last but one / end, which is empty or asks for QoS 3, or none; TopicFilter.WellFormed over the same per-filter space; " +
 			"filter contents (43 strings with or resembling a meaning to brokers: shared subscriptions complete and incomplete, $SYS, wildcards well and badly placed, NUL, non-UTF-8) x all 256 option bytes x placement (TopicFilter alone; alone, first or last in a SUBSCRIBE) and topic contents x alias x QoS x packet id; every sequence of <= 3 (thorough 4) operations from {AddFilters, Filters()[i].SetOptions, Filters()[i].SetFilter, SetSubscriptionID, String, WriteTo} on an empty, a one-filter and a decoded two-filter SUBSCRIBE, judged after every step by the rule evaluated on what Filters() and SubscriptionID() return; " +
 			"every packet as built through the API and, where the wire can carry it, as decoded from its own frame. Oracle: the three predicates transcribed from the property statement; WellFormed()!=nil <=> predicate; String() contains 'malformed!' <=> WellFormed()!=nil. distinct_nontrivial = distinct input tuples.",
 		Assumptions: []string{"in the full products field contents are fixed representatives; the content strata vary them over fixed lists"},
